@@ -142,6 +142,7 @@ inductive Pkt
   | discReq | discResp | pingReq | other
   | badPayload                 -- known type, undecodable payload
   | garbage                    -- bad preamble / indicator
+  | wrongName                  -- a Noise ServerHello frame (indicator 0x01, "\x01name\0mac\0") naming ANOTHER device
 deriving DecidableEq, Repr
 
 inductive Ev
@@ -320,6 +321,7 @@ def processPacket (s : State) (p : Pkt) : State × Bool :=
   if s.st = .closed then (s, false) else        -- nothing is processed once closed
   match p with
   | .garbage => (s, false)   -- handled by the frame helper, never reaches process_packet
+  | .wrongName => (s, false)
   | .badPayload => (reportFatal s (.api .protocol), true)
   | .hresp r => (collect (aAlive s) r, false)
   | .discResp => (aDiscRespArr (aAlive s), false)
@@ -343,6 +345,12 @@ def feed : State → List Pkt → State
   | s, .garbage :: _ =>
     -- `_handle_error_and_close`: fail a pending ready future, report, close; the loop returns
     aTrClose (reportFatal (aReadyFail .protocol s) (.api .protocol))
+  | s, .wrongName :: _ =>
+    -- the Noise helper, waiting for the ServerHello, compares the announced name with the expected one: bad name, carrying
+    -- the received name; the plaintext helper sees indicator 0x01: "requires encryption"; an established Noise session
+    -- takes the frame for an encrypted one that does not authenticate (protocol error).  Always `_handle_error_and_close`.
+    let e : Err := if s.noise then (if s.ready = .pending then .badName else .protocol) else .requiresEncryption
+    aTrClose (reportFatal (aReadyFail e s) (.api e))
   | s, p :: ps =>
     match processPacket s p with
     | (s, true) => aTrAbort s   -- exception out of data_received: force close, connection_lost(exc)
